@@ -181,4 +181,14 @@ def main():
 
 
 if __name__ == "__main__":
-    sys.exit(main())
+    try:
+        rc_ = main()
+    except SystemExit:
+        raise
+    except BaseException:
+        # an error of the machinery is not a verdict about the code: exit status 3, no VIOLATION line
+        import traceback
+        traceback.print_exc()
+        print("INTERNAL-ERROR: the checker itself failed; nothing is claimed about the tree", file=sys.stderr)
+        sys.exit(3)
+    sys.exit(rc_)
